@@ -486,6 +486,42 @@ def rule_r4(chk, prog):
     chk.floor('C18.R4', 'identity/hash flows examined', n, 0)
 
 
+def rule_r5(chk, prog):
+    chk.rule('C18.R5', 'the shared information tables are rebuilt only '
+             'between sweeps: no collect_information / reset_information '
+             'inside a loop over pool results, where the pool\'s task '
+             'feeder thread is still evaluating mutator filters against '
+             'them')
+    n = 0
+    for modname in ('strategy_hierarchical', 'strategy_ddmin'):
+        m = prog.mod(modname)
+        for q, f in m.funcs.items():
+            for lp in ast.walk(f):
+                if not (isinstance(lp, ast.For) and isinstance(
+                        lp.iter, ast.Call) and isinstance(
+                            lp.iter.func, ast.Attribute)
+                        and lp.iter.func.attr in ('imap_unordered', 'imap',
+                                                  'map_async')):
+                    continue
+                n += 1
+                bad = [c for b_ in lp.body for c in ast.walk(b_)
+                       if isinstance(c, ast.Call) and (call_name(c) or
+                                                       '').split('.')[-1]
+                       in ('collect_information', 'reset_information')]
+                chk.check('C18.R5', f'{modname}.{q}',
+                          f'result loop over {unparse(lp.iter)[:40]}',
+                          not bad,
+                          'the information tables are reset and rebuilt '
+                          'inside the loop over the pool\'s results: the '
+                          'task feeder thread of the pool is still running '
+                          'the producer, whose filters read these tables; a '
+                          'lookup between reset and rebuild caches a wrong '
+                          '"unknown", so the candidates generated depend on '
+                          'thread timing even with one job',
+                          loc=m.loc(bad[0] if bad else lp), nontrivial=True)
+    chk.floor('C18.R5', 'loops over pool results', n, 2)
+
+
 def run(tier):
     prog = Program()
     chk = Check(
@@ -511,6 +547,7 @@ def run(tier):
     chk.guard(rule_r2, chk, prog)
     chk.guard(rule_r3, chk, prog)
     chk.guard(rule_r4, chk, prog)
+    chk.guard(rule_r5, chk, prog)
     extra = None
     if tier == 'thorough':
         from .. import selftest
